@@ -29,7 +29,7 @@ def auto_discharge(site, fn, T, panic_abort):
         # unreachable arms of the generated match). Code the user wrote inside a branch keeps the user's
         # syntax context, so its expansion chain does not contain the select macro and is not affected.
         return "tokio::select! internal bookkeeping"
-    if site.kind in ("overflow", "divzero"):
+    if site.kind in ("overflow", "divzero") and t["k"] == "assert":
         m = t["msg"]
         a = site.terms[0] if site.terms else None
         b = site.terms[1] if len(site.terms) > 1 else None
